@@ -189,6 +189,29 @@ for bn in BLOCKS:
                         lambda bn=bn, cn=cn, col=col, looped=looped: names_contract(bn, cn, col, looped))
 
 
+def fresh_instances(flavour):
+    """two containers created without arguments share nothing: filling one leaves the other (and any created later) empty"""
+    if flavour == "cif":
+        F, B, C, mk = pdbx.CIFFile, pdbx.CIFBlock, pdbx.CIFCategory, lambda v: np.array(v)
+    else:
+        F, B, C, mk = pdbx.BinaryCIFFile, pdbx.BinaryCIFBlock, pdbx.BinaryCIFCategory, lambda v: np.array(v)
+    for cls, fill in ((F, lambda x: x.__setitem__("b", B())), (B, lambda x: x.__setitem__("c", C({"x": mk(["1"])}))), (C, lambda x: x.__setitem__("x", mk(["1", "2"])))):
+        one, two = cls(), cls()
+        fill(one)
+        if len(two) != 0 or list(two.keys()) != []:
+            return f"{cls.__name__}(): filling one instance shows up in another: keys {list(two.keys())}"
+        three = cls()
+        if len(three) != 0:
+            return f"{cls.__name__}(): an instance created later starts with keys {list(three.keys())}"
+        if len(one) != 1:
+            return f"{cls.__name__}(): the filled instance has {len(one)} entries"
+    return None
+
+
+for flavour in ("cif", "bcif"):
+    R.check("containers behave as mutable mappings", f"{flavour} fresh containers are independent", {"flavour": flavour}, lambda flavour=flavour: fresh_instances(flavour))
+
+
 def mapping_protocol(make_file, make_block, make_cat, lazy):
     f = make_file()
     model = {}
